@@ -300,7 +300,10 @@ def parse_rvalue(s):
     if s.startswith("&mut "):
         return Rvalue("ref", place=parse_place(s[5:]), mut=True)
     if s.startswith("&raw const ") or s.startswith("&raw mut "):
-        return Rvalue("ref", place=parse_place(s.split(" ", 2)[2]), mut=True)
+        rest = s.split(" ", 2)[2]
+        if rest.startswith("(fake) "):          # `&raw const (fake) (*_p)`: pointer taken only for PtrMetadata (bounds checks)
+            rest = rest[len("(fake) "):]
+        return Rvalue("ref", place=parse_place(rest), mut=True)
     if s.startswith("&"):
         return Rvalue("ref", place=parse_place(s[1:]), mut=False)
     if s.startswith("discriminant("):
